@@ -1621,9 +1621,12 @@ class ProductSpaceArrayWeighting(ArrayWeighting):
                                       'exponent != 2 (got {})'
                                       ''.format(self.exponent))
 
+        # Inner products are real or complex floating point numbers, also
+        # for spaces with integer data type
         inners = np.fromiter(
             (x1i.inner(x2i) for x1i, x2i in zip(x1, x2)),
-            dtype=x1[0].space.dtype, count=len(x1))
+            dtype=np.result_type(x1[0].space.dtype, np.float32),
+            count=len(x1))
 
         inner = np.dot(inners, self.array)
         if is_real_dtype(x1[0].dtype):
@@ -1729,9 +1732,12 @@ class ProductSpaceConstWeighting(ConstWeighting):
                                       'exponent != 2 (got {})'
                                       ''.format(self.exponent))
 
+        # Inner products are real or complex floating point numbers, also
+        # for spaces with integer data type
         inners = np.fromiter(
             (x1i.inner(x2i) for x1i, x2i in zip(x1, x2)),
-            dtype=x1[0].space.dtype, count=len(x1))
+            dtype=np.result_type(x1[0].space.dtype, np.float32),
+            count=len(x1))
 
         inner = self.const * np.sum(inners)
         return x1.space.field.element(inner)
